@@ -12,7 +12,8 @@ from .common import F, fs, dy
 
 # integer vectors with an integer Euclidean norm (the code divides by sqrt(normal.normal))
 PYTHAG = [(3, 4), (4, 3), (5, 12), (6, 8), (8, 15), (1, 2, 2), (2, 3, 6), (1, 4, 8), (2, 2, 1), (4, 4, 7), (1, 1, 1, 1), (2, 4, 5, 6)]
-MODES = ['inside', 'boundary', 'outside', 'outside', 'random']
+MODES = ['inside', 'boundary', 'outside', 'outside', 'random', 'near']
+NEAR_BITS = [12, 20, 27]     # a `near` point is 2^-k inside or outside a face / plane of the region
 
 
 def L(v):
@@ -68,9 +69,18 @@ def gen_cube(rng, p, mode, degenerate=None):
       if r < 0.4: a = p[i] + dy(rng, Fraction(1, 4), 3); b = a + w
       elif r < 0.8: b = p[i] - dy(rng, Fraction(1, 4), 3); a = b - w
       else: a = p[i] - w/2; b = a + w
+    elif mode == 'near':
+      a = p[i] - w*Fraction(rng.randint(1, 7), 8); b = a + w
     else:
       a = dy(rng, -4, 3); b = a + w
     lo.append(a); hi.append(b)
+  if mode == 'near':
+    k = rng.randrange(n); e = Fraction(1, 2**rng.choice(NEAR_BITS))*rng.choice([1, 1, -1])   # +: just outside, -: just inside
+    if rng.random() < 0.5:
+      lo[k] = p[k] + e; hi[k] = max(hi[k], lo[k] + Fraction(1, 4))
+    else:
+      hi[k] = p[k] - e; lo[k] = min(lo[k], hi[k] - Fraction(1, 4))
+    degenerate = False
   if mode == 'outside' and all(l <= x <= h for l, x, h in zip(lo, p, hi)):
     k = rng.randrange(n); lo[k] = p[k] + 1; hi[k] = lo[k] + 1
   if degenerate:
@@ -93,6 +103,7 @@ def gen_half(rng, p, mode, sign=None):
   if mode == 'inside': o = d - sg*delta            # sg*(d - o) = delta > 0
   elif mode == 'boundary': o = d
   elif mode == 'outside': o = d + sg*delta
+  elif mode == 'near': o = d + sg*Fraction(1, 2**rng.choice(NEAR_BITS))*rng.choice([1, 1, -1])
   else: o = dy(rng, -6, 6)
   return {'k': 'half', 'nrm': L(nrm), 'o': fs(o), 'sign': fs(sign)}
 
@@ -109,6 +120,11 @@ def gen_slice(rng, p, mode):
     lo = d if rng.random() < 0.5 else d - w
   elif mode == 'outside':
     lo = d + delta if rng.random() < 0.5 else d - w - delta
+  elif mode == 'near':
+    e = Fraction(1, 2**rng.choice(NEAR_BITS))*rng.choice([1, 1, -1])
+    if w == 0:
+      e = abs(e)
+    lo = d + e if rng.random() < 0.5 else d - w - e
   else:
     lo = dy(rng, -6, 5)
   return {'k': 'slice', 'nrm': L(nrm), 'lo': fs(lo), 'hi': fs(lo + w)}
@@ -268,3 +284,21 @@ def gen_hand_slab(rng, p, mode):
   a = {'k': 'half', 'nrm': list(s['nrm']), 'o': s['lo'], 'sign': '1'}
   b = {'k': 'half', 'nrm': list(s['nrm']), 'o': s['hi'], 'sign': '-1'}
   return {'k': 'inter', 'a': a if lo_first else b, 'b': b if lo_first else a}
+
+
+def displacement(r, p):
+  """exact: the largest coordinate of (nearest member - p) in absolute value, for the simple classes.  This is the
+  quantity `ConvexRegion.is_in` compares with `ConvexRegion.tol`."""
+  k = r['k']
+  if k == 'cube':
+    return violation(r, p)
+  nrm = [F(x) for x in r['nrm']]
+  d = fdot(nrm, p); nn = fdot(nrm, nrm)
+  if k == 'half':
+    o = F(r['o'])
+    gap = max(F(0), (o - d) if F(r['sign']) > 0 else (d - o))
+  elif k == 'slice':
+    gap = max(F(0), F(r['lo']) - d, d - F(r['hi']))
+  else:
+    raise ValueError(k)
+  return gap*max(abs(x) for x in nrm)/nn
